@@ -202,7 +202,7 @@ func decodeCursor(b []byte) (split, pos int, ok bool) {
 // scriptedSource implements connectors.SourceConfig.
 type scriptedSource struct{ c *Cluster }
 
-func (s *scriptedSource) Validate() error { return nil }
+func (s *scriptedSource) Validate() error                   { return nil }
 func (s *scriptedSource) ProtoMessage() *jobconfigpb.Source { return &jobconfigpb.Source{} }
 func (s *scriptedSource) NewSourceReader(connectors.SourceReaderHooks) connectors.SourceReader {
 	panic("clusterlib: readers are made by the SourceReaderFactory")
@@ -218,10 +218,10 @@ type splitter struct {
 	hooks connectors.SourceSplitterHooks
 }
 
-func (s *splitter) IsSourceSplitter()                        {}
-func (s *splitter) Close() error                             { return nil }
-func (s *splitter) NotifySplitsFinished(string, []string)    {}
-func (s *splitter) Checkpoint() []byte                       { return nil }
+func (s *splitter) IsSourceSplitter()                     {}
+func (s *splitter) Close() error                          { return nil }
+func (s *splitter) NotifySplitsFinished(string, []string) {}
+func (s *splitter) Checkpoint() []byte                    { return nil }
 func (s *splitter) Start(ck *snapshotpb.SourceCheckpoint) error {
 	n := s.c.opts.Script.NumSplits()
 	pos := make([]int, n)
@@ -483,7 +483,7 @@ type Options struct {
 	ReadBatch    int // max records per ReadEvents
 	Script       *Script
 	Handler      func(worker int) proto.Handler // nil: reference handler
-	DKV          *dkv.VerifDBTuning            // nil: tiny sizes (256-byte memtables)
+	DKV          *dkv.VerifDBTuning             // nil: tiny sizes (256-byte memtables)
 	SavepointURI string
 	Hooks        Hooks
 	Quiet        bool // discard slog output of the components (default true via New)
@@ -622,9 +622,13 @@ func (c *Cluster) newJob(workers int) error {
 	err := c.guard("jobs.New", func() error {
 		var e error
 		job, e = jobs.New(&jobs.NewParams{JobConfig: cfg, SavepointURI: c.opts.SavepointURI, Clock: c.jobClock, Store: store,
-			OperatorFactory:     func(senderID string, node *jobpb.NodeIdentity) proto.Operator { return &opAdapter{c: c, sender: nil, senderID: senderID, id: node.Id, host: node.Host} },
-			SourceRunnerFactory: func(node *jobpb.NodeIdentity) proto.SourceRunner { return &srAdapter{c: c, id: node.Id, host: node.Host} },
-			ErrChan:             errc})
+			OperatorFactory: func(senderID string, node *jobpb.NodeIdentity) proto.Operator {
+				return &opAdapter{c: c, sender: nil, senderID: senderID, id: node.Id, host: node.Host}
+			},
+			SourceRunnerFactory: func(node *jobpb.NodeIdentity) proto.SourceRunner {
+				return &srAdapter{c: c, id: node.Id, host: node.Host}
+			},
+			ErrChan: errc})
 		return e
 	})
 	if err != nil {
